@@ -68,6 +68,7 @@ def nodesOk (p1 p2 c : Genome W) : Bool :=
   let touched := c.genes.flatMap (fun x => [x.src, x.dst])
   io.all (fun n => c.nodes.any (fun m => m.id == n.id && m.kind == n.kind)) &&
   touched.all (fun i => c.nodes.any (·.id == i)) &&
+  (c.nodes.map (·.id)).Nodup &&
   c.nodes.all (fun m => (io.any (·.id == m.id) || touched.contains m.id) &&
                         (p1.nodes ++ p2.nodes).any (fun n => n.id == m.id && n.kind == m.kind && n.act == m.act))
 
